@@ -87,11 +87,100 @@ def gen_cases(tier, seed):
                     cases.append({"id": cid, "sig": [icls, nfmt, binding, sr, sa, enc, alg, skew > 0], "icls": icls, "sr": sr, "sa": sa, "enc": enc, "binding": binding,
                                   "alg": alg, "nfmt": nfmt, "classref": rng.choice(CLASSREFS), "snooa": rng.choice([None, 3600, 86400 * 3]),
                                   "lifetime": rng.choice([5, 15, 600]), "skew": skew})
+    for (sr, sa, enc) in combos:
+        cases.append({"id": "deferred-r%d-a%d-e%d" % (sr, sa, enc), "sig": ["deferred", sr, sa, enc], "kind": "interleaved", "mode": "deferred",
+                      "sr": sr, "sa": sa, "enc": enc, "users": 4})
+        if tier == "thorough" or (sr, sa, enc) in ((0, 0, 0), (1, 1, 0), (1, 0, 1)):
+            cases.append({"id": "threads-r%d-a%d-e%d" % (sr, sa, enc), "sig": ["threads", sr, sa, enc], "kind": "interleaved", "mode": "threads",
+                          "sr": sr, "sa": sa, "enc": enc, "users": 3, "iters": 12 if tier == "quick" else 80})
     return cases
 
 
 def setup_worker(ctx):
     ctx.fedcache = fed.Cache()
+
+
+def _check_identity(resp_obj, ident, desc, viol, key_suffix=""):
+    got = fed.identity_of(resp_obj)
+    want_ava = {k: sorted(x.strip() for x in v) for k, v in ident.items()}
+    if got.get("ava") != want_ava:
+        diff = {k: (want_ava.get(k), (got.get("ava") or {}).get(k)) for k in set(want_ava) | set(got.get("ava") or {}) if want_ava.get(k) != (got.get("ava") or {}).get(k)}
+        viol.append({"key": "C08/attributes-read-differ-from-asserted" + key_suffix, "what": desc + ": " + repr(diff)[:500]})
+        return False
+    return True
+
+
+def run_interleaved(case, ctx):
+    """one long-lived IdP builds several responses before any of them is serialised / from several threads at once: each subject must still
+    read its own identity"""
+    import sys
+    import threading
+    sp, idp = _pair(ctx, case["sr"], case["sa"], 15)
+    rng = random.Random("%s/%s" % (ctx.seed, case["id"]))
+    names = ["givenName", "sn", "mail", "eduPersonAffiliation"]
+    idents = [{n: ["%s-of-user%d-%s" % (n, u, gen.word(rng, 3, 5))] for n in names} for u in range(case["users"])]
+    viol, counters = [], {"flows": 0}
+    kw = dict(sign_response=bool(case["sr"]), sign_assertion=bool(case["sa"]), encrypt_assertion=bool(case["enc"]))
+    desc0 = "sign_response=%d sign_assertion=%d encrypt=%d" % (case["sr"], case["sa"], case["enc"])
+    if case["mode"] == "deferred":
+        rids, objs = [], []
+        for u, ident in enumerate(idents):
+            rid, _req = sp.create_authn_request(fed.SSO_REDIRECT)
+            rids.append(rid)
+            objs.append(idp.create_authn_response(dict((k, list(v)) for k, v in ident.items()), rid, fed.ACS_POST, fed.SP_EID, userid="user%d" % u,
+                                                  authn=fed.AUTHN, **kw))
+        order = list(range(len(objs)))
+        rng.shuffle(order)
+        for u in order:
+            xml = "%s" % objs[u]                      # serialised only now, after the others were built
+            try:
+                r = sp.parse_authn_request_response(fed.b64(xml), BINDING_HTTP_POST, {rids[u]: "/"})
+            except Exception as exc:
+                viol.append({"key": "C08/own-response-not-accepted", "what": desc0 + " deferred serialisation, user %d: %r" % (u, exc)})
+                continue
+            counters["flows"] += 1
+            _check_identity(r, idents[u], desc0 + " [response built before %d others were built, serialised afterwards] user %d" % (len(objs) - 1, u), viol,
+                            "-when-responses-are-built-before-serialised")
+    else:
+        old = sys.getswitchinterval()
+        sys.setswitchinterval(1e-6)
+        lock = threading.Lock()
+        results = []
+
+        def work(u):
+            for i in range(case["iters"]):
+                try:
+                    rid, _req = sp.create_authn_request(fed.SSO_REDIRECT)
+                    resp = idp.create_authn_response(dict((k, list(v)) for k, v in idents[u].items()), rid, fed.ACS_POST, fed.SP_EID, userid="user%d" % u,
+                                                     authn=fed.AUTHN, **kw)
+                    xml = "%s" % resp
+                    r = sp.parse_authn_request_response(fed.b64(xml), BINDING_HTTP_POST, {rid: "/"})
+                    with lock:
+                        results.append((u, r, None))
+                except Exception as exc:
+                    with lock:
+                        results.append((u, None, exc))
+        try:
+            ths = [threading.Thread(target=work, args=(u,)) for u in range(case["users"])]
+            for t in ths:
+                t.start()
+            for t in ths:
+                t.join(600)
+        finally:
+            sys.setswitchinterval(old)
+        for u, r, exc in results:
+            counters["flows"] += 1
+            if r is None:
+                viol.append({"key": "C08/own-response-not-accepted-under-concurrency", "what": desc0 + " thread of user %d: %r" % (u, exc)})
+            else:
+                _check_identity(r, idents[u], desc0 + " [%d threads on one IdP] user %d" % (case["users"], u), viol, "-under-concurrency")
+            if len(viol) > 4:
+                break
+    uniq = {}
+    for v in viol:
+        uniq.setdefault(v["key"], v)
+    return {"outcome": "violations" if viol else "accepted", "nontrivial": counters["flows"] > 0, "violations": list(uniq.values()), "counters": counters,
+            "evals": max(1, counters["flows"]), "sigs": [["interleaved", case["mode"], case["sr"], case["sa"], case["enc"]]]}
 
 
 def _pair(ctx, sr, sa, lifetime, skew=0):
@@ -120,6 +209,8 @@ class _Form(html.parser.HTMLParser):
 def run_case(case, ctx):
     from saml2_tophat.saml import NameID
     from saml2_tophat.samlp import NameIDPolicy
+    if case.get("kind") == "interleaved":
+        return run_interleaved(case, ctx)
     sp, idp = _pair(ctx, case["sr"], case["sa"], case["lifetime"], case.get("skew", 0))
     rng = random.Random("%s/%s" % (ctx.seed, case["id"]))
     ident = identity_for(case["icls"], rng)
